@@ -32,7 +32,7 @@ def dposXY (w : Nat) (dpos : Int) : Int × Int :=
 
 /-! #### xf -/
 
-def parseXf (ws : List String) : Option (String × Xf) :=
+def parseXf (seed : Nat) (ws : List String) : Option (String × Xf) :=
   match ws with
   | ["id"] => some ("id", .id) | ["flipud"] => some ("flipud", .flipUD) | ["fliplr"] => some ("fliplr", .flipLR)
   | ["transpose"] => some ("transpose", .transpose) | ["rot90cw"] => some ("rot90cw", .rot90cw)
@@ -52,7 +52,7 @@ def parseXf (ws : List String) : Option (String × Xf) :=
   | [o, a] =>
     if o == "nth" then a.toNat?.map (fun n => (o, .nth n))
     else if o == "cc" || o == "anycc" then (Fmt.parse a).map (fun f => (o, .cc f .default))
-    else if o == "ccx" || o == "anyccx" then (Fmt.parse a).map (fun f => (o, .cc f .sum))
+    else if o == "ccx" || o == "anyccx" then (Fmt.parse a).map (fun f => (o, .cc f (.sum (ccOffset seed))))
     else none
   | _ => none
 
@@ -73,7 +73,7 @@ def descr {t : Tag} (r : View t) (bits : Nat) (m : Mem) : String :=
 def modelXf (B : Bool) (ws : List String) : String :=
   match ws with
   | T :: w :: h :: s :: rest =>
-    match Fmt.parse T, w.toNat?, h.toNat?, s.toNat?, parseXf rest with
+    match Fmt.parse T, w.toNat?, h.toNat?, s.toNat?, parseXf (s.toNat?.getD 0) rest with
     | some f, some w, some h, some s, some (name, x) =>
       let L := xfList B x
       if !L.contains f then "bad-type" else
@@ -101,7 +101,7 @@ def modelXf2 (B : Bool) (ws : List String) : String :=
   match ws with
   | T :: w :: h :: s :: rest =>
     let (r1, r2) := splitThen rest
-    match Fmt.parse T, w.toNat?, h.toNat?, s.toNat?, parseXf r1, parseXf r2 with
+    match Fmt.parse T, w.toNat?, h.toNat?, s.toNat?, parseXf (s.toNat?.getD 0) r1, parseXf (s.toNat?.getD 0) r2 with
     | some f, some w, some h, some s, some (n1, x1), some (n2, x2) =>
       let L := xf2List B x2
       if !L.contains f then "bad-type" else
@@ -123,10 +123,10 @@ def modelXf2 (B : Bool) (ws : List String) : String :=
 
 inductive BinAlg where | copy | equal | ccopy (c : Conv) | rs (mat : List Int) | rsz
 
-def parseBin (name : String) (extra : List String) : Option BinAlg :=
+def parseBin (seed : Nat) (name : String) (extra : List String) : Option BinAlg :=
   match name, extra with
   | "copy", [] => some .copy | "equal", [] => some .equal
-  | "ccopy", [] => some (.ccopy .default) | "ccopyx", [] => some (.ccopy .sum)
+  | "ccopy", [] => some (.ccopy .default) | "ccopyx", [] => some (.ccopy (.sum (ccOffset seed)))
   | "rsz", [] => some .rsz
   | "rs", e => if e.length = 6 then (ints e).map .rs else none
   | _, _ => none
@@ -134,7 +134,7 @@ def parseBin (name : String) (extra : List String) : Option BinAlg :=
 def modelBin (B : Bool) (name : String) (ws : List String) : String :=
   match ws with
   | _mode :: T1 :: T2 :: w1 :: h1 :: w2 :: h2 :: s1 :: s2 :: dpos :: extra =>
-    match Fmt.parse T1, Fmt.parse T2, [w1, h1, w2, h2, s1, s2].mapM String.toNat?, dpos.toInt?, parseBin name extra with
+    match Fmt.parse T1, Fmt.parse T2, [w1, h1, w2, h2, s1, s2].mapM String.toNat?, dpos.toInt?, parseBin (s1.toNat?.getD 0) name extra with
     | some f1, some f2, some [w1, h1, w2, h2, s1, s2], some dpos, some alg =>
       let L := if B then LB else match alg with | .ccopy _ => L6 | _ => L7
       if !(L.contains f1 && L.contains f2) then "bad-type" else
@@ -146,6 +146,10 @@ def modelBin (B : Bool) (name : String) (ws : List String) : String :=
       let d0 := dumpHex vb f2.bits m0
       let a : AnyView := wrap va; let b : AnyView := wrap vb
       let compat := compatible f1 f2
+      let needsCompat := match alg with | .ccopy _ => false | _ => true
+      let needsDims := match alg with | .copy | .equal | .ccopy _ => true | _ => false
+      -- the concrete algorithm asserts equal dimensions (reached only when the pair is one the call is defined for)
+      if needsDims && (compat || !needsCompat) && !sameDims a b then s!"compat={b01 compat} A:assert | C:assert | D0={d0}" else
       let (st, r, m1) : String × String × Mem := match alg with
         | .copy => match anyCopyPixels a b m0 with | (.ok _, m) => ("ok", "", m) | (.error _, m) => ("err:bad_cast", "", m)
         | .equal => match anyEqualPixels a b m0 with | (.ok e, m) => ("ok", " r=" ++ b01 e, m) | (.error _, m) => ("err:bad_cast", "", m)
@@ -154,7 +158,6 @@ def modelBin (B : Bool) (name : String) (ws : List String) : String :=
         | .rsz => match anyResize a b m0 with | (.ok _, m) => ("ok", "", m) | (.error _, m) => ("err:bad_cast", "", m)
       let dst := dumpHex vb f2.bits m1
       let src := dumpHex va f1.bits m1
-      let needsCompat := match alg with | .ccopy _ => false | _ => true
       let C := if compat || !needsCompat then s!"C:ok{r} dst={dst}" else "C:n/a"
       s!"compat={b01 compat} A:{st}{r} dst={dst} src={src} | {C} | D0={d0}"
     | _, _, _, _, _ => "bad-op"
@@ -343,7 +346,7 @@ def judgeLifted (f : Fmt) (L : List Fmt) (tg : Fmt → Tag) (obs : String) : Str
 def judgeXf (B : Bool) (ws : List String) (obs : String) : String :=
   match ws with
   | T :: _w :: _h :: _s :: rest =>
-    match Fmt.parse T, parseXf rest with
+    match Fmt.parse T, parseXf 0 rest with
     | some f, some (_, x) => judgeLifted f (xfList B x) (fun g => x.tag (Tag.ofFmt g)) obs
     | _, _ => fail "bad-op"
   | _ => fail "bad-op"
@@ -352,7 +355,7 @@ def judgeXf2 (B : Bool) (ws : List String) (obs : String) : String :=
   match ws with
   | T :: _w :: _h :: _s :: rest =>
     let (r1, r2) := splitThen rest
-    match Fmt.parse T, parseXf r1, parseXf r2 with
+    match Fmt.parse T, parseXf 0 r1, parseXf 0 r2 with
     | some f, some (_, x1), some (_, x2) => judgeLifted f (xf2List B x2) (fun g => x2.tag (x1.tag (Tag.ofFmt g))) obs
     | _, _, _ => fail "bad-op"
   | _ => fail "bad-op"
@@ -369,6 +372,9 @@ def judgeBin (name : String) (ws : List String) (obs : String) : String :=
         if cflag != s!"compat={b01 compat}" then fail "views_are_compatible-differs-from-spec-relation"
         else if compat || converting then
           match C with
+          | ["C:assert"] =>
+            -- out of contract for the concrete call (unequal dimensions): the run-time typed call must end the same way
+            if st != "A:assert" then fail ("concrete-call-asserts-but-run-time-typed-call-does-not:" ++ st) else "ok"
           | "C:ok" :: crest =>
             if st != "A:ok" then fail ("defined-pair-does-not-succeed:" ++ st)
             else if field "r" arest != field "r" crest then fail "return-value-differs-from-concrete"
